@@ -809,3 +809,9 @@ PROPS["C44"]["bounds"] += ("; rounds / epochs: every pair of u64 rounds; every e
 PROPS["C44"]["outside"] = PROPS["C44"].get("outside", "") + ("; epoch_change itself (validator set rotation, emissions, rewards), "
                                                               "natively the epoch-change path of next_round is not replayable "
                                                               "(a counterexample there ends as not decided, not as a violation)")
+
+PROPS["C10"]["functions"].append("radix_engine::blueprints::resource::NonFungibleVaultBlueprint::{lock_non_fungibles, "
+                                 "unlock_non_fungibles} (lock table as a slot-array map; internal_take_non_fungibles / "
+                                 "internal_put are recorded effects on the liquid id set)")
+PROPS["C10"]["bounds"] += ("; non-fungible vault: a universe of 3 ids, each liquid, locked with any count <= 1000 or absent, "
+                           "requests of 0..2 distinct ids")
